@@ -228,7 +228,7 @@ func TestVerifC04(t *testing.T) {
 			what = "Match/Normalize modified the caller's slice"
 		}
 		// emit for the cross-process comparison (bin/check runs this test twice and diffs)
-		o.corr("c04proc", in.id, []string{vhash(in.data)}, vshowResults(base))
+		o.corr("xproc:match", in.id, []string{vhash(in.data)}, vshowResults(base))
 		o.verdict("C04", in.id, what == "", len(base.Matches) > 0, "det:"+vhash(in.data), map[string]interface{}{"what": vclip(what), "input_hex": vclip(hx(in.data))})
 		n++
 	}
@@ -370,6 +370,7 @@ var vtransforms = []vtransform{
 			return l
 		})
 	}},
+	{"paren-markers", "C06", true, func(r *vrand, in []byte) []byte { return vparenMarkers(r, in, ")") }},
 	{"hyphen-split", "C06", false, func(r *vrand, in []byte) []byte {
 		return vmapLines(in, func(i int, l string) string {
 			ws := strings.Split(l, " ")
@@ -409,6 +410,23 @@ var vtransforms = []vtransform{
 func visNotice(l string) bool {
 	d, _ := tokenizeStream(strings.NewReader(l), true, newDictionary(), true)
 	return d != nil && len(d.Matches) > 0
+}
+
+// vparenMarkers prefixes some lines with letter markers "a) ", "b) " … (with close = ")") — the
+// property lists `a)` among the list markers. With close = "." the same lines get "a. " etc.
+func vparenMarkers(r *vrand, in []byte, close string) []byte {
+	prevHyphen := false
+	return vmapLines(in, func(i int, l string) string {
+		f := strings.Fields(l)
+		ph := prevHyphen
+		prevHyphen = strings.HasSuffix(strings.TrimRight(l, " \t\r"), "-")
+		pick := r.chance(1, 5)
+		letter := string(rune('a' + r.intn(8)))
+		if !ph && len(f) > 0 && len(f[0]) >= 3 && visAlpha(strings.ToLower(f[0])) && pick && !visNotice(l) {
+			return letter + close + " " + l
+		}
+		return l
+	})
 }
 
 func vasciiUpper(r rune) rune {
@@ -519,6 +537,7 @@ func vrunMeta(t *testing.T, prop string) {
 			if prop == "C05" && baseHyphen {
 				continue // exempt: a hyphen before a line break joins word halves
 			}
+			r0 := &vrand{s: r.s}
 			rr := r.fork(uint64(ti)*7919 + uint64(len(in.data)))
 			data := tr.apply(rr, in.data)
 			if bytes.Equal(data, in.data) {
@@ -534,7 +553,9 @@ func vrunMeta(t *testing.T, prop string) {
 			}
 			sig := ""
 			if what != "" {
-				sig = vclassifyMeta(c, tr.name, in.data, data, base, got)
+				sig = vclassifyMeta(c, tr.name, in.data, data, base, got, func() *vrand {
+					return r0.fork(uint64(ti)*7919 + uint64(len(in.data)))
+				})
 			}
 			id := in.id + "_" + tr.name
 			v := map[string]interface{}{"what": vclip(what), "transform": tr.name, "input_hex": vclip(hx(in.data)), "transformed_hex": vclip(hx(data))}
@@ -575,7 +596,17 @@ func vrunMeta(t *testing.T, prop string) {
 }
 
 // vclassifyMeta assigns a known-finding signature to a failing metamorphic case, or "".
-func vclassifyMeta(c *Classifier, tr string, in, data []byte, base, got Results) string {
+func vclassifyMeta(c *Classifier, tr string, in, data []byte, base, got Results, reseed func() *vrand) string {
+	if tr == "paren-markers" {
+		// C06/letter-paren-marker: header() does not treat "a)" as a list marker (`if e != ')'`).
+		// The very same lines marked "a." instead leave the result unchanged: then this case is
+		// that finding and nothing else.
+		alt := vparenMarkers(reseed(), in, ".")
+		if vlicOnly(base, true) == vlicOnly(c.Match(alt), true) {
+			return "C06/letter-paren-marker"
+		}
+		return ""
+	}
 	if tr != "hyphen-split" {
 		return ""
 	}
